@@ -25,7 +25,8 @@ RULE = ("flow back-end {zuko MAF, flowjax MAF} x bounded transform {logit, probi
         "float64} x dims {1,2} x training set {centred, piled against the upper bound, narrow (sigma = 1e-2 width)} x stage "
         "{trained, trained->saved->loaded, trained twice on different data (refit), refit->saved->loaded} (+ Aspire-built default flow, also with periodic parameters declared, and Aspire.sample_flow); for each: quadrature of "
         "exp(log_prob) over the support = 1, every row of sample_and_log_prob(256) has log q == log_prob(x), draws inside the "
-        "bounds. non-trivial = configuration with at least one data transform; distinct = distinct configuration")
+        "bounds. Plus the continuous flow (zuko, flow_matching=True) x bounded transform x dtype x dims: two log_prob calls on the same points agree exactly, "
+        "returned log q == log_prob to the ODE solver's tolerance, draws inside the bounds, 1-D quadrature = 1. non-trivial = configuration with at least one data transform; distinct = distinct configuration")
 ASSUMPTIONS = [
     "network weights are whatever 2 epochs from a fixed seed produce (normalisation is an identity of the architecture)",
     "quadrature is trusted only when doubling the nodes changes it by < 1e-5; otherwise the case is reported as undecided, never as a violation",
@@ -262,6 +263,83 @@ def run_config(cfg):
     return r.dump()
 
 
+def run_flow_matching(cfg):
+    """The continuous flow (flow_matching=True; the density comes from integrating an ODE): log_prob is a function of the
+    point (two calls agree exactly), the log q returned with a draw is the density at that draw (to the ODE solver's
+    tolerance), draws stay inside the bounds, and in one dimension the density integrates to one."""
+    bounded, dt, d, seed = cfg
+    r = Report()
+    case = {"flow_matching": True, "bounded": bounded, "dtype": dt, "dims": d, "seed": seed}
+    r.case(explorer.digest(case), nontrivial=True)
+    try:
+        import torch
+
+        from aspire.flows import get_flow_wrapper
+        from aspire.transforms import FlowTransform
+
+        F, fxp = get_flow_wrapper("zuko", flow_matching=True)
+        params = ["zeta", "alpha"][:d]
+        pb = {p: [float(l), float(h)] for p, l, h in reversed(list(zip(params, LO[:d], HI[:d])))}
+        dtf = FlowTransform(parameters=params, prior_bounds=pb if bounded != "off" else None, bounded_to_unbounded=bounded != "off",
+                            bounded_transform=bounded if bounded != "off" else "logit", affine_transform=True, xp=fxp,
+                            dtype=get_dtype("torch", dt))
+        flow = F(dims=d, seed=seed, dtype=dt, data_transform=dtf, hidden_features=[16, 16])
+        x = training("centred", d, np.random.default_rng(seed))
+        flow.fit(x, n_epochs=2, batch_size=64)
+        torch.manual_seed(seed + 1)
+        xs, lq = flow.sample_and_log_prob(48)
+        torch.manual_seed(seed + 2)
+        lp1 = tonp(flow.log_prob(xs)).astype(np.float64)
+        lp2 = tonp(flow.log_prob(xs)).astype(np.float64)
+        xs_np, lq_np = tonp(xs).astype(np.float64), tonp(lq).astype(np.float64)
+    except Exception as e:
+        from env import exc_site
+
+        r.violation(f"C03/zuko-flow-matching/raises/{type(e).__name__}/{exc_site(e)}", repr(e)[:300], case)
+        return r.dump()
+    lo, hi = LO[:d], HI[:d]
+    f32 = dt == "float32"
+    if bounded != "off" and (np.any(xs_np < lo) or np.any(xs_np > hi)):
+        r.violation(f"C03/zuko-flow-matching/draw-outside-bounds/{bounded}", {"min": xs_np.min(0).tolist(), "max": xs_np.max(0).tolist()}, case)
+    if not np.array_equal(lp1, lp2):
+        r.violation("C03/zuko-flow-matching/log_prob-not-a-function-of-the-point", {"max_difference_between_two_calls": float(np.nanmax(np.abs(lp1 - lp2)))}, case)
+    tt = (xs_np - lo) / (hi - lo)
+    margin = CLIP * (30 if f32 else 1.5)
+    inside = np.all((tt > margin) & (tt < 1 - margin), axis=1) if bounded != "off" else np.ones(len(xs_np), dtype=bool)
+    tol = 5e-3 * (1 + np.abs(lp1))  # the solver's tolerances, forward and backward
+    bad = inside & ~(np.abs(lq_np - lp1) <= tol)
+    r.count("rows_compared", int(inside.sum()))
+    r.outcomes.add(("fm", bounded, dt, d, round(float(np.max(np.abs(lq_np - lp1)[inside])), 3) if inside.any() else None))
+    if np.any(bad):
+        i = int(np.argmax(bad))
+        r.violation(f"C03/zuko-flow-matching/sample-logq-differs-from-log_prob/{bounded}",
+                    {"row": i, "returned": lq_np[i], "log_prob": lp1[i], "n_bad": int(bad.sum())}, case)
+    if d == 1:
+        def logp(pts):
+            v = tonp(flow.log_prob(pts)).astype(np.float64)
+            return np.where(np.isnan(v), -np.inf, v)
+
+        try:
+            I1 = integrate(logp, d, lo, hi, xs_np, bounded != "off", 1)
+            I2 = integrate(logp, d, lo, hi, xs_np, bounded != "off", 2)
+            if abs(I1 - I2) < 1e-3:
+                r.count("quadrature-resolved")
+                if abs(I2 - 1.0) > 1e-2:
+                    r.violation(f"C03/zuko-flow-matching/not-normalised/{bounded}", {"integral": I2, "coarser": I1}, case)
+            else:
+                r.count("quadrature-undecided")
+        except Exception as e:
+            from env import exc_site
+
+            r.violation(f"C03/zuko-flow-matching/log_prob-raises-on-grid/{type(e).__name__}/{exc_site(e)}", repr(e)[:200], case)
+    r.sample(case)
+    return r.dump()
+
+
+def fm_configs(tier):
+    return [(b, dt, d, sd) for sd in ((0,) if tier == "quick" else (0, 1, 2)) for b in ("logit", "probit", "off") for dt in ("float64", "float32") for d in (1, 2)]
+
+
 def configs(tier, seed):
     out = []
     seeds = [0] if tier == "quick" else [0, 1, 2]
@@ -308,11 +386,16 @@ def run(tier, seed, workers):
     cfgs.sort(key=lambda c: (0 if c[0] == "flowjax" else 1, -c[4]))
     for d in pmap("checks.c03", "run_config", cfgs, workers):
         rep.merge(d)
+    for d in pmap("checks.c03", "run_flow_matching", fm_configs(tier), workers):
+        rep.merge(d)
     rep.count("configs", len(cfgs))
     return rep
 
 
 def replay(case):
     r = Report()
+    if case.get("flow_matching"):
+        r.merge(run_flow_matching((case["bounded"], case["dtype"], case["dims"], case["seed"])))
+        return r
     r.merge(run_config((case["backend"], case["bounded"], case["affine"], case["dtype"], case["dims"], case["data"], case["stage"], case["seed"], case.get("eps", 1e-6))))
     return r
